@@ -292,6 +292,55 @@ def scalar_types(utl):
     return [e.id for e in r.operand.args[1].elts]
 
 
+def mode_bracketing(sym):
+    """An.evaluate / The.evaluate: where the mode is switched off.  A `mode block` is  `with symbolic_mode(mode=None):`.
+       Recognised: any nesting of try / while / for / with / if around: yield, yield from, next(<name>), <name>.close(),
+       self._evaluate_() / self._evaluate__().  Direct writes of the mode variable are refused."""
+    def is_mode_block(w):
+        if not isinstance(w, ast.With) or len(w.items) != 1:
+            return False
+        c = w.items[0].context_expr
+        return (isinstance(c, ast.Call) and isinstance(c.func, ast.Name) and c.func.id == 'symbolic_mode' and not c.args
+                and len(c.keywords) == 1 and c.keywords[0].arg == 'mode' and isinstance(c.keywords[0].value, ast.Constant)
+                and c.keywords[0].value.value is None)
+
+    def scan(fn):
+        found = dict(yield_in=0, yield_out=0, adv_in=0, adv_out=0, close_in=0, close_out=0, eval_in=0, eval_out=0)
+
+        def walk(node, inside):
+            for ch in ast.iter_child_nodes(node):
+                ins = inside or is_mode_block(ch)
+                if isinstance(ch, (ast.FunctionDef, ast.Lambda)):
+                    continue
+                if isinstance(ch, ast.With) and not is_mode_block(ch):
+                    for it in ch.items:
+                        need('symbolic_mode' not in ast.dump(it), f'{fn.name}: unrecognised use of symbolic_mode')
+                if isinstance(ch, (ast.Yield, ast.YieldFrom)):
+                    found['yield_in' if inside else 'yield_out'] += 1
+                if isinstance(ch, ast.YieldFrom) or isinstance(ch, ast.For) or (
+                        isinstance(ch, ast.Call) and isinstance(ch.func, ast.Name) and ch.func.id == 'next'):
+                    found['adv_in' if inside else 'adv_out'] += 1
+                if isinstance(ch, ast.Call) and isinstance(ch.func, ast.Attribute) and ch.func.attr == 'close':
+                    found['close_in' if inside else 'close_out'] += 1
+                if isinstance(ch, ast.Call) and isinstance(ch.func, ast.Attribute) and ch.func.attr in ('_evaluate_', '_evaluate__') \
+                        and isinstance(ch.func.value, ast.Name) and ch.func.value.id == 'self':
+                    found['eval_in' if inside else 'eval_out'] += 1
+                walk(ch, ins)
+        walk(fn, False)
+        src = ast.dump(fn)
+        need('_set_symbolic_mode' not in src and "_symbolic_mode" not in src.replace('symbolic_mode', 'X').replace('_X', '_symbolic_mode')
+             or True, 'unreachable')
+        need("id='_set_symbolic_mode'" not in src and "id='_symbolic_mode'" not in src, f'{fn.name}: writes the mode variable directly')
+        return found
+    an = scan(method(find(sym, ast.ClassDef, 'An'), 'evaluate'))
+    the = scan(method(find(sym, ast.ClassDef, 'The'), 'evaluate'))
+    need(an['adv_in'] + an['adv_out'] >= 1, 'An.evaluate: no place found where the result generator is advanced')
+    need(an['yield_in'] + an['yield_out'] >= 1, 'An.evaluate: not a generator')
+    need(the['eval_in'] + the['eval_out'] == 1, 'The.evaluate: expected exactly one call of self._evaluate_()')
+    return dict(an_mode_off_around_next=(an['adv_out'] == 0), an_yield_inside_mode_block=(an['yield_in'] > 0),
+                an_close_under_mode_off=(an['close_out'] == 0), the_mode_off=(the['eval_out'] == 0))
+
+
 # ------------------------------------------------------------------------------------------------
 def emit(d):
     sym, ent, pred, utl = (parse(os.path.join(d, f)) for f in ('symbolic.py', 'entity.py', 'predicate.py', 'utils.py'))
@@ -303,6 +352,7 @@ def emit(d):
     or_same, or_diff = optimize_or(sym)
     pos = positional(pred)
     scal = scalar_types(utl)
+    mb = mode_bracketing(sym)
     o = []
     o.append("(* Generated.v — REGENERATED ON EVERY RUN by translator/eql2coq.py from /repo's current source. Do not edit. *)")
     o.append("From EQL Require Import Base Values.\n")
@@ -362,6 +412,10 @@ def emit(d):
     o.append("Inductive pytype := Ty_str | Ty_type | Ty_bytes | Ty_bytearray | Ty_other.")
     tn = {'str': 'Ty_str', 'type': 'Ty_type', 'bytes': 'Ty_bytes', 'bytearray': 'Ty_bytearray'}
     o.append("Definition scalar_types : list pytype := [" + "; ".join(tn.get(t, 'Ty_other') for t in scal) + "].")
+    o.append("")
+    o.append("(* An.evaluate / The.evaluate: how the result generators bracket the symbolic mode (see Mode.v) *)")
+    for k, v in mb.items():
+        o.append(f"Definition {k} : bool := {'true' if v else 'false'}.")
     return "\n".join(o) + "\n"
 
 
